@@ -62,7 +62,7 @@ class C01(Check):
     LEVEL = 'model_checking'
     ENGINE = 'SCHED'
     RULE = ('programs = 10 experiment shapes (1x1; 2 envs x stateful learners; shared chunk() prefix with shuffle(n=2); explicit triple list with a '
-            'shared learner, SequentialCB/RejectionCB and a logged env; plus a pipeline alphabet of 31 single environment filters/sources built with non-default parameters (P:<name>), of 8 learners and of 11 evaluator configurations (L:/V:<name>), default schedules only; PMF- and kwargs-returning learners; custom evaluator + cache() prefix; RejectionCB next to learners writing learning_info; one learner under several evaluators, plain and chunked; an empty environment behind a chunk with a summary-row evaluator) x '
+            'shared learner, SequentialCB/RejectionCB and a logged env; plus component alphabets (environment filters/sources built with non-default parameters P:<name>, learners L:<name>, evaluator configurations V:<name>; sizes in the counters), default schedules only; PMF- and kwargs-returning learners; custom evaluator + cache() prefix; RejectionCB next to learners writing learning_info; one learner under several evaluators, plain and chunked; an empty environment behind a chunk with a summary-row evaluator) x '
             'configurations processes{1,2,3} x maxchunksperchild{0,1,2} x maxtasksperchunk{0,1,2} x seeds; for each, every schedule of the '
             'simulated worker processes / loader / callbacks / log thread with <= b deviations from each default policy is executed; '
             'non-trivial = worker processes were spawned (or, for (1,0,0), the run is the reference itself run a second time)')
@@ -73,7 +73,7 @@ class C01(Check):
     LEVEL_TEXT = ('Every configuration of every shape is executed under all schedules within the bound on the real code and compared table by table '
                   'with the in-process run; id assignment, chunk grouping/splitting, seed propagation into workers and learner copying are therefore '
                   'exercised for every configuration and for worker schedules the OS would only produce rarely.')
-    LEVEL_NOTE = 'bounded: 6 shapes, 27 configurations, 2 seeds; deviation bound 0 everywhere + 1 on the small shapes (quick) / 1 on all with caps (thorough)'
+    LEVEL_NOTE = 'bounded: 10 shapes + 3 component alphabets, 27 configurations, 2 seeds; deviation bound 0 everywhere + 1 on the small shapes (quick) / 1 on all with caps (thorough)'
     MIN_NONTRIVIAL = {'quick': 30, 'thorough': 100}
     CASE_TIMEOUT = 6000
 
@@ -157,7 +157,7 @@ class C01(Check):
         def on_exec(ex, prefix, policy):
             if ex.npids > 1: nontrivial[0] = True
             j = self.judge(case, ex, ref)
-            acc.outcome('same' if j is None else f'{j[0]}:{j[1]}')
+            acc.outcome(('same' if j is None else f'{j[0]}:{j[1]}') + f' processes-used={ex.npids}')
             if ex.task_errors: acc.count('executions_with_uncaught_thread_exception')
             if j:
                 acc.violation(f'Experiment|{j[1]}|{j[0]} {self.feature(case)}', j[2],
@@ -218,7 +218,7 @@ class C01(Check):
         self.setup(tier)
         n = self.real_runs(pick, acc)
         acc.traces += n
-        return {'real_os_conformance_runs': n}
+        return {'real_os_conformance_runs': n, 'alphabet_pipelines': len(P.PIPES), 'alphabet_learners': len(P.LEARNERS), 'alphabet_evaluators': len(P.EVALUATORS)}
 
 
 CHECK = C01()
